@@ -73,9 +73,10 @@ static std::string run_dense(M& A, VX& x, V& b, const std::string& op, int n, in
     catch (C02DivByZero&) { o << "EXC DivByZero"; }
     o << " | " << (sameM(A, v, n) ? "U" : "MOD");
   } else if (op == "invert") {
+    // after an exception the matrix object must be what it was (flag U)
     try { if (piv == 2) A.invert(); else A.invert(piv != 0); o << "OK"; for (int i = 0; i < n; i++) for (int j = 0; j < n; j++) o << " " << A[i][j].v; }
-    catch (FMatrixError&) { o << "EXC FMatrixError"; }
-    catch (C02DivByZero&) { o << "EXC DivByZero"; }
+    catch (FMatrixError&) { o << "EXC FMatrixError | " << (sameM(A, v, n) ? "U" : "MOD"); }
+    catch (C02DivByZero&) { o << "EXC DivByZero | " << (sameM(A, v, n) ? "U" : "MOD"); }
   } else o << "UNKNOWN-OP";
   return o.str();
 }
